@@ -607,6 +607,10 @@ pub fn gen_func_with(ch: &mut Chooser, max_ops: usize, max_vars: u32) -> FuncGen
                 } else {
                     ch.float_sym("fn_imm_v", 2.0, 40)
                 })
+            } else if ch.odds("fn_same_operand", 1, 10) {
+                // and(a, a), min(a, a), ...: the same-operand arms of the
+                // register allocator (seeded changes C04-u, C04-v)
+                a
             } else {
                 pick(ch, &pool)
             };
@@ -659,6 +663,8 @@ pub fn gen_func_with(ch: &mut Chooser, max_ops: usize, max_vars: u32) -> FuncGen
             );
             let b = if ch.odds("fn_imm", 1, 4) {
                 dag.c(ch.float_sym("fn_imm_v", 2.0, 40))
+            } else if ch.odds("fn_same_operand", 1, 10) {
+                a
             } else {
                 pick(ch, &pool)
             };
